@@ -79,6 +79,9 @@ type-checks.  (Adapted from harness/c11/translate.py: the term language, decisio
   observers get_routes / has_routes / get_route (no state term: any store, augmented assignment or mutating method is a Problem)
     x is True (x a bool parameter) -> x ; a + b (lists of routes) -> app a b (a NEW list) ; bool(x) -> truth value ;
     self.routes.get(k) -> assoc_get (routes m) k
+  RequestParamPredicate.__call__ (observer): self.reqs -> reqs : list (key, optional value), loop target `k, v` = fst / snd ;
+    request.params.get(k) -> params_get params k : option text (WebOb: the LAST value of the key, None when absent) ;
+    a != v (v an optional str) -> negb (is_remainder a v), i.e. "v is a str equal to a" negated ; both optional -> otext_eqb
   connect parameters by position    name -> d_name d, pattern -> d_src d, predicates -> d_preds d, static -> d_static d (bool)
   return route (connect)            connected m        a failing Route(..)  ->  connect_failed m e
 """
@@ -91,6 +94,7 @@ FALLBACK = os.path.join(HERE, 'gen_fallback.json')
 
 SELFCFG, NONE = 'self (configurator)', 'None'
 MDICTOWN, GROUPS, ITEMS, PAIR, MATCHFN = ('match dict (own)', 'match object', 'items of groupdict', 'pair of str', 'compiled match')
+SELFP, REQS, PAIRO = 'self (request_param predicate)', 'list of (key, optional value)', 'pair of str and optional str'
 TEXT, SEGS, SEGSOWN, BOOL, ERASED, REQ, SELFM, SELFR, ROUTE, ROUTES, PREDS, MDICT, PAT, GEN, INFO, INFONONE, EXCV = (
     'str', 'tuple of str', 'list of str (own)', 'bool', 'erased', 'request', 'self (mapper)', 'self (route)', 'route',
     'list of routes', 'predicates', 'match dict', 'compiled matcher', 'generator', 'info dict', 'empty info dict',
@@ -106,8 +110,9 @@ def RES(t):
 
 
 COQTY = {TEXT: 'text', SEGS: 'list text', SEGSOWN: 'list text', BOOL: 'bool', ROUTE: 'route', ROUTES: 'list route',
-         PREDS: 'list pred', MDICT: 'matchdict', PAT: 'pat', MDICTOWN: 'matchdict', PAIR: 'text * text'}
-ELEM = {SEGS: TEXT, SEGSOWN: TEXT, ROUTES: ROUTE, ITEMS: PAIR}
+         PREDS: 'list pred', MDICT: 'matchdict', PAT: 'pat', MDICTOWN: 'matchdict', PAIR: 'text * text',
+         PAIRO: 'text * option text'}
+ELEM = {SEGS: TEXT, SEGSOWN: TEXT, ROUTES: ROUTE, ITEMS: PAIR, REQS: PAIRO}
 
 
 class Problem(Exception):
@@ -361,6 +366,9 @@ FUNCS = [
     dict(file='pyramid/urldispatch.py', qual='RoutesMapper.get_route', gen='gen_get_route', kind='observer', ret=OPT(ROUTE),
          params=[(None, SELFM), (V('name'), TEXT)], sig='(m : mapper) (name : text) : option route',
          coqret='option route', default='None'),
+    dict(file='pyramid/predicates.py', qual='RequestParamPredicate.__call__', gen='gen_param_call', kind='observer', ret=BOOL,
+         params=[(None, SELFP), (None, ERASED), (None, REQ)],
+         sig='(reqs : list (text * option text)) (params : list (text * text)) : bool', coqret='bool', default='true'),
     dict(file='pyramid/urldispatch.py', qual='RoutesMapper.__call__', gen='gen_call', kind='call', ret='call',
          params=[(None, SELFM), (None, REQ)],
          sig='(mt : pat -> text -> option matchdict) (m : mapper) (method : text) (raw : option text) : tracedout',
@@ -402,6 +410,7 @@ TRANSLATED = ['pyramid/urldispatch.py:RoutesMapper.__call__', 'pyramid/urldispat
               'pyramid/urldispatch.py:RoutesMapper.get_route',
               'pyramid/urldispatch.py:Route.__init__', 'pyramid/urldispatch.py:_compile_route.matcher',
               'pyramid/traversal.py:split_path_info', 'pyramid/traversal.py:decode_path_info',
+              'pyramid/predicates.py:RequestParamPredicate.__call__',
               'pyramid/config/routes.py:RoutesConfiguratorMixin.add_route',
               'pyramid/config/routes.py:RoutesConfiguratorMixin.route_prefix_context']
 MAPPER_ATTRS = {'routelist': ('routelist', 'set_routelist', ROUTES), 'static_routes': ('statics', 'set_statics', ROUTES),
@@ -758,7 +767,7 @@ class Tr:
         itobj, itty = self.expr(s.iter, env, facts)
         if itty not in ELEM:
             raise Problem('loop over a %s: %s' % (itty, u(s.iter)))
-        pair = isinstance(s.target, ast.Tuple) and ELEM[itty] == PAIR and len(s.target.elts) == 2 \
+        pair = isinstance(s.target, ast.Tuple) and ELEM[itty] in (PAIR, PAIRO) and len(s.target.elts) == 2 \
             and all(isinstance(e, ast.Name) for e in s.target.elts) and s.target.elts[0].id != s.target.elts[1].id
         if not isinstance(s.target, ast.Name) and not pair:
             raise Problem('loop target outside the subset: %s' % u(s.target))
@@ -820,7 +829,7 @@ class Tr:
         env_body = dict(env_head)
         if pair:
             env_body[tnames[0]] = (A('fst', [V(lp.x)]), TEXT)
-            env_body[tnames[1]] = (A('snd', [V(lp.x)]), TEXT)
+            env_body[tnames[1]] = (A('snd', [V(lp.x)]), TEXT if ELEM[itty] == PAIR else OPT(TEXT))
         else:
             env_body[tname] = (V(lp.x), lp.elem_ty)
         cons = self.block(list(s.body), env_body, facts_head, k_continue, (k_continue, k_break))
@@ -925,6 +934,9 @@ class Tr:
                         lobj, robj = robj, lobj
                     c = ('atom', A('is_remainder', [lobj, robj]))
                     return (('not', c) if isinstance(n.ops[0], ast.NotEq) else c), BOOL
+                if lty == OPT(TEXT) and rty == OPT(TEXT):
+                    c = ('atom', A('otext_eqb', [lobj, robj]))
+                    return (('not', c) if isinstance(n.ops[0], ast.NotEq) else c), BOOL
                 if lty == TEXT and rty == TEXT:
                     if isinstance(lobj, K) and not isinstance(robj, K):
                         lobj, robj = robj, lobj
@@ -950,6 +962,8 @@ class Tr:
             if oty == SELFM and n.attr in MAPPER_ATTRS:
                 getter, _, ty = MAPPER_ATTRS[n.attr]
                 return A(getter, [env['$m'][0] if '$m' in env else V('m')]), ty
+            if oty == SELFP and n.attr == 'reqs':
+                return V('reqs'), REQS
             if oty == ROUTE and n.attr == 'predicates':
                 return A('r_preds', [oobj]), PREDS
             if oty == REQ and n.attr == 'path_info':
@@ -982,6 +996,12 @@ class Tr:
             kobj, kty = self.expr(n.args[0], env, facts)
             if kty == TEXT:
                 return A('assoc_get', [self.expr(f.value, env, facts)[0], kobj]), OPT(ROUTE)
+        if isinstance(f, ast.Attribute) and f.attr == 'get' and len(n.args) == 1 and isinstance(f.value, ast.Attribute) \
+                and f.value.attr == 'params' and isinstance(f.value.value, ast.Name) \
+                and env.get(f.value.value.id, (0, 0))[1] == REQ:
+            kobj, kty = self.expr(n.args[0], env, facts)
+            if kty == TEXT:
+                return A('params_get', [V('params'), kobj]), OPT(TEXT)
         if isinstance(f, ast.Attribute) and f.attr == 'items' and not n.args and isinstance(f.value, ast.Call) \
                 and isinstance(f.value.func, ast.Attribute) and f.value.func.attr == 'groupdict' and not f.value.args \
                 and not f.value.keywords:
@@ -1075,6 +1095,7 @@ WANT = {'pyramid/urldispatch.py': {'Route': ['class'], '_compile_route': ['def']
                                    'split_path_info': ['from pyramid.traversal import split_path_info'],
                                    'RoutesMapper': ['class']},
         'pyramid/config/routes.py': {'RoutesConfiguratorMixin': ['class'], 'urlparse': ['from urllib.parse import urlparse']},
+        'pyramid/predicates.py': {'RequestParamPredicate': ['class']},
         'pyramid/traversal.py': {'split_path_info': ['def'], 'decode_path_info': ['def'],
                                  'lru_cache': ['from functools import lru_cache']}}
 BUILTINS = ('all', 'tuple', 'bool', 'KeyError', 'UnicodeDecodeError')
